@@ -68,7 +68,7 @@ def selftest(ctx):
     base = ctx.scratch + "/self.ndjson"
     ctx.build_harness()
     rc, res, _ = ctx.harness(["stream", "c08", base], env={"VERIF_SHARDS": "1", "VERIF_SELFTEST": "1"})
-    lines = open(base + ".0").read().splitlines()[:300]
+    lines = open(base + ".0").read().split("\n")[:300]
     bad = 0
     out = []
     for i, ln in enumerate(lines):
@@ -82,7 +82,7 @@ def selftest(ctx):
             t["after"] = 1; bad += 1
         out.append(json.dumps(t))
     open(base + ".0", "w").write("\n".join(out) + "\n")
-    rl = open(base + ".replay.0").read().splitlines()[:300]
+    rl = open(base + ".replay.0").read().split("\n")[:300]
     open(base + ".replay.0", "w").write("\n".join(rl) + "\n")
     ctx.validate_traces("StreamTrace", base, 1, {"Mode": '"c08"'}, "C08")
     ok = len(ctx.candidates) == bad
